@@ -1,5 +1,5 @@
 """C15  Options resolve per field: run time over benchmark over innermost group."""
-from lib.facts import norm, place_fields, direct_place, nophi
+from lib.facts import norm, place_fields, direct_place, nophi, const_int
 from lib import tables
 
 EXPLANATION = (
@@ -900,8 +900,73 @@ def r15_8(ctx, prog, crate):
                   "CounterSet::with does not insert the given counter into self and return it (calls %s, returns %s)" % ([c[0] for c in s.calls], s.ret), wth.where(0))
 
 
+def r15_9(ctx, prog, crate):
+    """What the attribute's `threads = <value>` turns into: a single count n gives the one-element list [n] on every path
+    (the borrowed constants for small n hold that very n), `true` gives [0] (available parallelism) and `false` gives [1],
+    and any iterable is collected, sorted and then de-duplicated, in that order, and returned."""
+    from lib.patheval import PathEval
+    impls = {b.local_ty(1): b for b in prog.lib_bodies(crate) if b.kind == "AssocFn" and b.path.endswith("IntoThreads<0>>::into_threads") or
+             (b.kind == "AssocFn" and b.path.endswith("IntoThreads<1>>::into_threads"))}
+    if not ctx.anchor("R15.9", "IntoThreads::into_threads impls (usize, bool, iterables)", len(impls), 3):
+        return
+
+    def promoted_list(b, blocks):
+        """Value of the promoted `&[k, ..]` constant used on this path, as a list of ints."""
+        for bi in blocks:
+            for s in b.blocks[bi]["stmts"]:
+                if s["k"] == "assign" and s["rv"]["k"] == "use" and s["rv"]["o"]["k"] == "const" and s["rv"]["o"]["c"].get("promoted", -1) >= 0:
+                    pb = prog.promoted(b, s["rv"]["o"]["c"]["promoted"])
+                    if pb is None:
+                        return None
+                    for bj, sj, sd in pb.stmts(live_only=False):
+                        if sd["k"] == "assign" and sd["rv"]["k"] == "agg" and sd["rv"]["ak"] == "array":
+                            return [const_int(o) for o in sd["rv"]["ops"]]
+        return None
+    for ty, b in sorted(impls.items()):
+        ctx.saw(b)
+        sums = PathEval(b).run()
+        if not ctx.check(bool(sums), "R15.9", [ty, "readable"], "cannot enumerate the paths of `%s`" % b.path, b.where(0)):
+            continue
+        if ty == "usize":
+            for s in sums:
+                vs = [a[2] for a, p in s.conds if p and a[0] == "val" and a[1] == ("arg", 1, ())]
+                if s.ret[0] == "adt" and s.ret[2] == "Borrowed":
+                    lst = promoted_list(b, s.blocks)
+                    ok = len(vs) == 1 and isinstance(vs[0], int) and lst == [vs[0]]
+                    ctx.check(ok, "R15.9", ["usize", "borrowed-constant-is-the-count"], "`threads = %s` becomes the list %s" % (vs, lst), b.where(s.blocks[-1]))
+                elif s.ret[0] == "adt" and s.ret[2] == "Owned":
+                    # vec![self]: the boxed array written holds exactly the parameter
+                    arr = [sd for bi in s.blocks for sd in b.blocks[bi]["stmts"] if sd["k"] == "assign" and sd["rv"]["k"] == "agg" and sd["rv"]["ak"] == "array"]
+                    els = [direct_place(b, o) for sd in arr for o in sd["rv"]["ops"]]
+                    ctx.check(len(arr) == 1 and els == [("place", 1, ())], "R15.9", ["usize", "owned-list-is-the-count"], "a larger count becomes the list %s" % (els,), b.where(s.blocks[-1]))
+                else:
+                    ctx.fail("R15.9", ["usize", "shape"], "usize::into_threads returns %s" % (s.ret,), b.where(s.blocks[-1]))
+        elif ty == "bool":
+            for s in sums:
+                pol = [p for a, p in s.conds if a == ("bool", ("arg", 1, ()))]
+                lst = promoted_list(b, s.blocks)
+                want = [0] if pol == [True] else [1] if pol == [False] else None
+                ctx.check(want is not None and lst == want, "R15.9", ["bool", "true" if pol == [True] else "false", "documented-list"],
+                          "`threads = %s` becomes %s, expected %s" % ("true" if pol == [True] else "false", lst, want), b.where(s.blocks[-1]))
+        else:
+            s = sums[0]
+            names = [c[0] for c in s.calls]
+            srt = [i for i, n_ in enumerate(names) if n_.startswith("core::slice::sort")]
+            ded = [i for i, n_ in enumerate(names) if n_ == "std::vec::Vec::dedup"]
+            col = [i for i, n_ in enumerate(names) if n_ == "std::iter::Iterator::collect"]
+            ok = len(sums) == 1 and len(srt) == 1 and len(ded) == 1 and len(col) == 1 and col[0] < srt[0] < ded[0] and s.ret[0] == "adt" and s.ret[2] == "Owned" and \
+                s.ret[3] and s.ret[3][0][0] == "site" and s.ret[3][0][1] == "std::iter::Iterator::collect"
+            ctx.check(ok, "R15.9", ["iterable", "collect-sort-dedup-return"], "the iterable impl is not collect -> sort -> dedup -> return that list (calls: %s)" % [n_.rsplit("::", 1)[-1] for n_ in names], b.where(0))
+            cl = [x for x in prog.children(b) if x.kind == "Closure"]
+            if ctx.check(len(cl) == 1, "R15.9", ["iterable", "one-map-closure"], "closures: %d" % len(cl), b.where(0)):
+                cs = PathEval(cl[0]).run()
+                ctx.check(bool(cs) and len(cs) == 1 and cs[0].ret[0] == "cell" and cs[0].ret[1][0] == "ret" and cs[0].ret[1][1].endswith("Borrow::borrow") and not cs[0].ret[2],
+                          "R15.9", ["iterable", "each-item-verbatim"], "an item of the iterable is mapped to %s, expected the borrowed value itself" % (cs[0].ret if cs else None,), cl[0].where(0))
+
+
 def run(ctx, prog, crate):
     r15_8(ctx, prog, crate)
+    r15_9(ctx, prog, crate)
     r15_1(ctx, prog, crate)
     r15_2(ctx, prog, crate)
     r15_3(ctx, prog, crate)
